@@ -75,7 +75,7 @@ PROPS["C16"] = {
     "streams": [("parsers", (2, 60000), (6, 2000000)), ("handlers", (2, 800), (6, 6000))],
     "model": True,
     "technique": "Lean 4: verified abstract-interpretation checker (safe_sound) + per-parser `decide` obligations over a model REGENERATED from the Go source by a go/ast translator on every run; translator validated by lock-step runs of the IR interpreter against the real parsers",
-    "level_text": "For every Parse*Command function found in internal/protocol at check time — translated mechanically to a small IR — the Lean kernel checks `safe prog = true`, and the once-proved theorem safe_sound lifts that to: for all argument vectors of all lengths and all strconv behaviours the parser returns a command or an error (no out-of-range index/slice, every option loop terminates). The translation is validated against the real functions on exhaustive short vectors and random long ones. Handler bodies are not modelled; they are exercised by the handlers stream against live members: every registered command (the list is the member's own) with random vectors, every known command skeleton with each position replaced by every extreme / malformed token, each also with a PING behind it on the same connection (exactly one reply per command), entries around the table size, raw entries that are not entries, sequences of commands over one connection in subscriber mode, and the two internal commands whose payload is a structure of its own - a routing-table push and a fragment hand-over that are well formed on the wire and falsified inside (partition id out of range, nil route, no owners; write offset, index entry or value length beyond the table). Two extracted facts pin the checks that repair F48 / F49 (pushed_table_is_checked_before_it_is_applied, table_pack_is_checked_before_a_table_is_built; tied in C13 / C11).",
+    "level_text": "For every Parse*Command function found in internal/protocol at check time — translated mechanically to a small IR — the Lean kernel checks `safe prog = true`, and the once-proved theorem safe_sound lifts that to: for all argument vectors of all lengths and all strconv behaviours the parser returns a command or an error (no out-of-range index/slice, every option loop terminates). The translation is validated against the real functions on exhaustive short vectors and random long ones. Handler bodies are not modelled; they are exercised by the handlers stream against live members: every registered command (the list is the member's own) with random vectors, every known command skeleton with each position replaced by every extreme / malformed token, each also with a PING behind it on the same connection (exactly one reply per command), entries around the table size, raw entries that are not entries, sequences of commands over one connection in subscriber mode, and the two internal commands whose payload is a structure of its own - a routing-table push and a fragment hand-over that are well formed on the wire and falsified inside (partition id out of range, nil route, no owners; write offset, index entry or value length beyond the table). For a table received over the network (Store/Pack.lean, the check added by ef8ceb4): every pack that validate accepts is at most 4 GiB, its memory is as long as its write offset, and every position the readers access for an indexed entry lies inside it (C16_validated_pack_reads_in_bounds); two extracted facts pin where the two payload checks sit (facts_tie_payloads; also tied in C13 / C11).",
     "design_ref": "DESIGN.md §6 C16",
     "modelled": "internal/protocol/*.go Parse* functions (translated, not hand-written); redcon's RESP reader and the handlers' bodies are not modelled",
     "assumptions": ["redcon never dispatches an empty command (cmd.Args[0] exists)", "strconv/hex functions return an error on bad input and never panic"],
